@@ -209,9 +209,6 @@ func paramNames(fn *ssa.Function) []string {
 	return ns
 }
 
-func (fr *frame) lockOp(full string, args []*Val, st *State, x ssa.Instruction) {
-	fr.vc.note("sequential semantics: %s is a no-op (mutual exclusion is not modelled)", full)
-}
 
 func (fr *frame) inline(x ssa.Instruction, callee *ssa.Function, fc *FuncContract, args, free []*Val, st *State, name string) *Val {
 	if fr.depth > 6 {
@@ -768,7 +765,7 @@ func (fr *frame) frameCheckCond(key string, ref *Term, cond *Term, st *State, at
 	if fr.isDiscovery || fr.assignsOK == nil {
 		return
 	}
-	if strings.HasPrefix(key, "I:") || strings.HasPrefix(key, "L:") || key == alKey || key == alAKey {
+	if strings.HasPrefix(key, "I:") || strings.HasPrefix(key, "L:") || strings.HasPrefix(key, "LK") || key == alKey || key == alAKey {
 		return
 	}
 	ok := fr.assignsOK(key, ref, st)
